@@ -10,18 +10,23 @@
     Values of group-by keys ([gval]): None, int, str, or a tuple of floats (lists / MultiValues are
     turned into tuples by the code).  Floats are exact rationals.                                   *)
 From Coq Require Import List Bool ZArith NArith QArith Qabs Lia.
+From Coq Require Qcanon.
 From DV Require Import Common.Res Common.Str Generated.T_group.
 Import ListNotations.
 Open Scope res_scope.
 
 (* ------------------------------------------------------------------ values *)
 
-Inductive gval := GNone | GInt (z : Z) | GStr (s : str) | GTup (l : list Q).
+(** floats are canonical rationals ([Qc]): Python [==] on them is Leibniz equality *)
+Notation Qc := Qcanon.Qc.
+Definition qv (x : Qc) : Q := Qcanon.this x.
 
-Fixpoint qlist_eqb (a b : list Q) : bool :=
+Inductive gval := GNone | GInt (z : Z) | GStr (s : str) | GTup (l : list Qc).
+
+Fixpoint qlist_eqb (a b : list Qc) : bool :=
   match a, b with
   | [], [] => true
-  | x :: xs, y :: ys => Qeq_bool x y && qlist_eqb xs ys
+  | x :: xs, y :: ys => Qcanon.Qc_eq_bool x y && qlist_eqb xs ys
   | _, _ => false
   end.
 
@@ -54,7 +59,7 @@ Definition close_q (atol a b : Q) : bool := Qle_bool (Qabs (a - b)) (atol + np_r
 Definition numeric (v : gval) : option (list Q) :=
   match v with
   | GInt z => Some [inject_Z z]     (* 0-d array; broadcasts like a 1-element array *)
-  | GTup l => Some l
+  | GTup l => Some (map qv l)
   | GNone | GStr _ => None
   end.
 
@@ -144,12 +149,12 @@ Fixpoint str_ltb (a b : str) : bool :=
   | [], _ :: _ => true
   | x :: xs, y :: ys => if N.eqb x y then str_ltb xs ys else N.ltb x y
   end.
-Fixpoint qlist_ltb (a b : list Q) : bool :=
+Fixpoint qlist_ltb (a b : list Qc) : bool :=
   match a, b with
   | _, [] => false
   | [], _ :: _ => true
-  | x :: xs, y :: ys => if Qeq_bool x y then qlist_ltb xs ys
-                        else match Qcompare x y with Lt => true | _ => false end
+  | x :: xs, y :: ys => if Qcanon.Qc_eq_bool x y then qlist_ltb xs ys
+                        else match Qcompare (qv x) (qv y) with Lt => true | _ => false end
   end.
 Definition gval_ltb (a b : gval) : option bool :=
   match a, b with
@@ -279,6 +284,7 @@ Section Stack.
       "transactional" is about. *)
   Variable state : Type.
   Variable add : state -> F -> state * option err.
+  Variable n_files : state -> nat.          (* len(stack._files_info) *)
 
   Fixpoint stack_run (warn : bool) (st : state) (w : nat) (g : list F) : res (state * nat) :=
     match g with
@@ -294,7 +300,8 @@ Section Stack.
   Definition stack_group (warn : bool) (init : state) (g : list F) : res (state * nat) :=
     stack_run warn init 0%nat g.
 
-  (** for key, group in results.items(): results[key] = stack_group(group, ...)   (a fresh stack each) *)
+  (** for key in list(results.keys()): stack = stack_group(results[key], ...)   (a fresh stack each);
+      a group whose stack holds no file is deleted from the result, otherwise results[key] = stack *)
   Fixpoint stack_all (warn : bool) (init : state) (gs : list (group F)) (w : nat)
     : res (list (list gval * state) * nat) :=
     match gs with
@@ -302,7 +309,7 @@ Section Stack.
     | (k, g) :: gs' =>
         do r <- stack_run warn init w g;
         do r' <- stack_all warn init gs' (snd r);
-        Ok ((k, fst r) :: fst r', snd r')
+        Ok ((if Nat.eqb (n_files (fst r)) 0 then fst r' else (k, fst r) :: fst r'), snd r')
     end.
 
   (** parse_and_stack does not forward close_tests: the grouping uses the module default *)
@@ -331,4 +338,4 @@ Definition add_of_res {state F} (a : state -> F -> res state) (st : state) (f : 
 
 (** parse_and_group / parse_and_stack with the module's default arguments *)
 Definition parse_and_group_default {F} := @parse_and_group F default_group_keys default_close_keys group_atol.
-Definition parse_and_stack_default {F} state add := @parse_and_stack F state add default_group_keys group_atol.
+Definition parse_and_stack_default {F} state add n_files := @parse_and_stack F state add n_files default_group_keys group_atol.
